@@ -179,7 +179,6 @@ fn exec(ctx: &mut Ctx, ev: &Ev, rng: &mut Rng) {
                     return;
                 }
             };
-            let _ = (a, b);
             let mut asg = assignments(n, ma.support() | mb.support(), rng);
             let dense = (ma.support() | mb.support()).count_ones() > 12;
             let ea = ma.contradictory();
@@ -223,6 +222,13 @@ fn exec(ctx: &mut Ctx, ev: &Ev, rng: &mut Rng) {
             ctx.check("implies-semantic", imp == a_in_b, ev, "implies", || format!("a.implies(b) = {} but set inclusion is {} for a=({:#x},{:#x}) b=({:#x},{:#x})", imp, a_in_b, ma.pos, ma.neg, mb.pos, mb.neg));
             ctx.check("intersects-semantic", ints == both_sat, ev, "intersects", || format!("a.intersects(b) = {} but the sets {} for a=({:#x},{:#x}) b=({:#x},{:#x})", ints, if both_sat { "meet" } else { "are disjoint" }, ma.pos, ma.neg, mb.pos, mb.neg));
             ctx.check("eq-semantic", eq == same, ev, "eq", || format!("a == b is {} but semantic equality is {} for a=({:#x},{:#x}) b=({:#x},{:#x})", eq, same, ma.pos, ma.neg, mb.pos, mb.neg));
+            // the other routes to equality: !=, cmp, partial_cmp, <..>=, Hash, HashSet, BTreeSet, sort, min/max, clone
+            match guard(|| vmon::obs::eq_ord_hash_routes(&a, &b, same)) {
+                Outcome::Returned(Ok(k)) => ctx.checked("eq-routes-agree", k as u64),
+                Outcome::Returned(Err(route)) => ctx.violate("eq-routes-agree", ev, route, format!(
+                    "route `{}` disagrees with semantic equality ({}) for a=({:#x},{:#x}) b=({:#x},{:#x})", route, same, ma.pos, ma.neg, mb.pos, mb.neg)),
+                Outcome::Panicked(msg) => ctx.violate("no-panic", ev, "eq-routes", format!("comparison / hashing panicked: {}", msg)),
+            }
         }
         "chain" => {
             let ms: Vec<CubeM> = (0..4).map(|k| cube_at(ev, k)).collect();
